@@ -332,7 +332,16 @@ func body(s *simrt.Sim, tier string) {
 					e.addInv = now()
 					e.epochAtAdd = len(epochs)
 					s.Logf("Add e%d %q at %s", e.idx, e.spec, rel(e.addInv))
-					e.id = c.Schedule(e.sched, cron.FuncJob(job(e)))
+					if s.Choose(3, "addfunc") == 0 {
+						// the spec-string entrance (AddFunc -> AddJob -> Schedule, through the Cron's own parser)
+						id, err := c.AddFunc(e.spec, job(e))
+						if err != nil {
+							s.Fail("addfunc-error", fmt.Sprintf("AddFunc(%q) returned %v", e.spec, err))
+						}
+						e.id = id
+					} else {
+						e.id = c.Schedule(e.sched, cron.FuncJob(job(e)))
+					}
 					e.addRet, e.addRetStamp = now(), s.Stamp()
 					e.added = true
 				case opRemove:
